@@ -1,9 +1,9 @@
 """C17: segment/partition labels round-trip and always partition the triangles."""
 ID = "C17"
 LEVEL = "model_checking"
-HARNESS = ["c17_segments.cpp"]
+MODULES = {"c17": dict(harness=["c17_segments.cpp"], entries=()), "c10": dict(harness=["c10_parts.cpp"], entries=("h_parts", "h_weights", "h_split", "h_partlabels"))}
 BOUNDS = {
-    "quick": {"triangles_t": "0..4", "segmentation_layouts": "7 layouts (1-3 segments, 0-2 sub-segments, permuted part ids, empty segments)", "labels": "symbolic in [-1, #parts) per triangle", "delete_after": "t<=3, n<=3 vertices, k<=2 deleted", "reorder": "t<=3, symbolic 32-bit order"},
+    "quick": {"triangles_t": "0..4", "segmentation_layouts": "7 layouts (1-3 segments, 0-2 sub-segments, permuted part ids, empty segments)", "labels": "symbolic in [-1, #parts) per triangle", "delete_after": "t<=3, n<=3 vertices, k<=2 deleted", "reorder": "t<=3, symbolic 32-bit order", "partition_labels": "OB/FO3/SK/SSE, 6 vertices / 4 triangles, symbolic label per triangle in [0,2), SetShapePartitions -> GetShapePartitions, then DeleteVertsForShape of one vertex"},
     "thorough": {"triangles_t": "0..5", "segmentation_layouts": "7", "labels": "symbolic in [-1, #parts)", "delete_after": "t<=3, n<=4, k<=3", "reorder": "t<=4"},
 }
 ASSUMPTIONS = [
@@ -40,4 +40,11 @@ def jobs(tier, seed):
                         J.append(dict(entry="h_seg_delete", args=[t, layout, n, k, 1], budget=bud))
     for t in range(0, (3 if tier == "quick" else 4) + 1):
         J.append(dict(entry="h_reorder", args=[t], budget=bud))
+    for j in J:
+        j["mod"] = "c17"
+    # partition assignment (NiTriShape / BSTriShape skin partitions): labels round-trip, also after deleting a vertex
+    for ver in (0, 1, 2, 3):
+        for nparts in ((2,) if tier == "quick" else (2, 3)):
+            for dv in ((-1, 0, 3) if tier == "quick" else (-1, 0, 2, 3, 5)):
+                J.append(dict(entry="h_partlabels", args=[ver, nparts, dv], budget=bud, mod="c10"))
     return J
